@@ -36,6 +36,32 @@ import sys
 os.environ.setdefault('VERIF_PROVE_FRESH_MS', '5000')
 os.environ.setdefault('VERIF_BRANCH_NLSAT_MS', '2000')
 
+# numba's on-disk cache (`@njit(cache=True)` in thermosteam) is redirected away from the working tree under check: the mode-B
+# groups compile lle_objective_function / liquid_activities / psuedo_equilibrium_inner_loop once per process (their cache key
+# contains the first-class function argument f_gamma, i.e. a per-process object, so entries never hit), every process appends
+# to the cache index, and re-pickling index entries of earlier processes raises "ReferenceError: underlying object has
+# vanished" (the "TODO: SUBMIT ISSUE TO NUMBA" of lle.py).  A private directory keeps /repo/**/__pycache__ untouched, and the
+# lle.* entries in it are purged at start-up and whenever that error shows up (see b_call).
+if 'numba' not in sys.modules:
+    import tempfile
+    os.environ.setdefault('NUMBA_CACHE_DIR', os.path.join(tempfile.gettempdir(), 'verif_numba_cache_C15'))
+
+
+def purge_lle_numba_cache():
+    root = os.environ.get('NUMBA_CACHE_DIR')
+    if not root or not os.path.isdir(root) or 'verif_numba_cache' not in root:
+        return
+    for d, _, files in os.walk(root):
+        for f in files:
+            if f.startswith('lle.') and f.endswith(('.nbi', '.nbc')):
+                try:
+                    os.remove(os.path.join(d, f))
+                except OSError:
+                    pass
+
+
+purge_lle_numba_cache()
+
 import numpy as np
 import thermosteam as tmo
 from thermosteam import equilibrium as eq
@@ -958,8 +984,7 @@ B_METHODS = {'pseudo': 'pseudo equilibrium', 'shgo': 'shgo', 'de': 'differential
 ACT_TOL = {'pseudo': 1e-3, 'shgo': 2e-2, 'de': 2e-2}
 SPLIT_RTOL = 1e-3           # "same split": every flow within 1e-3 of the total feed
 W.preload(list(B_FAMILIES.values()))
-# ReferenceError: numba's weak proxy to a first-class function argument ("underlying object has vanished") is raised now and then
-# inside scipy's shgo in long-lived worker processes; it is not reproducible on a single run and says nothing about thermosteam
+# ReferenceError: numba cache-index problem (see the top of this file); b_call retries once, a second failure is "no result"
 B_ERRORS = (NoEquilibrium, InfeasibleRegion, ZeroDivisionError, FloatingPointError, RuntimeError, ReferenceError)
 
 
@@ -977,7 +1002,14 @@ def b_set_feed(s, flows, scale=1.):
 def b_call(s, T, method, top, use_cache=True):
     lle = s.lle
     lle.method = B_METHODS[method]
-    lle(T, top_chemical=top, use_cache=use_cache)
+    try:
+        lle(T, top_chemical=top, use_cache=use_cache)
+    except ReferenceError:
+        # numba cache-index problem described at the top of this file (raised while SAVING a freshly compiled function, i.e.
+        # before the solver ran: the call has only pooled l+L in 'L' and set T, which the repeated call does again):
+        # start from an empty index and repeat the call
+        purge_lle_numba_cache()
+        lle(T, top_chemical=top, use_cache=use_cache)
 
 
 def b_flows(s):
